@@ -186,7 +186,8 @@ CHECKS["C16"] = {
              "result, normalize, minimize, query_all, copy (constructed / assigned) that is then mutated while the source is used} followed by each later "
              "operation of {identity, forget(x), forget(y), assume(x<=0), x:=y, join B, meet B, widening with B} must give the same solution set over the "
              "box as the later operation applied to V itself (widening after a normalisation is not compared: its left operand is syntactic). Quick: 12 "
-             "domains owning lazy/shared representations (all closure settings of the three graph domains); thorough: all domains, pool depth 4."),
+             "domains owning lazy/shared representations (all closure settings of the three graph domains); thorough: all domains, pool depth 4. The same job runs on the abstract_domain and abstract_domain_ref flavours (pool, copies and "
+             "later operations all through the wrapper) for intervals and split_dbm (thorough: every domain, first configuration)."),
     "assumptions": _E3_ASSUME + ["meaning = solution set of exported linear constraints and intervals over the box; widening results are only required to be sound"],
     "level_text": "Complete enumeration of histories within the stated bounds on the real domains and wrappers.",
     "level_note": "Semantic (not structural) comparison; representation differences that do not change the exported meaning are not flagged.",
